@@ -25,7 +25,7 @@ func (p *Prog) fileOf(fn *ssa.Function) string {
 }
 
 func checkC19(p *Prog, r *Report) {
-	r.Explanation = "Crash-containment clauses of 'the parser is total'. (1) recover dominance: newLexer (which already lexes the first token) and every parser call in parseFileInput are dominated by the defer of a closure that calls recover() and assigns the error result; newLexer and parseFileInput have no other callers, so every exported parse entry goes through that frame. (2) the handler is total: it converts the recovered value with a non-comma-ok assertion to error, so every panic raised in the lexer/parser files must carry a value whose static type implements error, or be unreachable (preceded on every path by a call that never returns). (3) explicit failures are positioned: in lexer.go / grammar_parse.go the only explicit panics are inside fail(), which wraps the message with file name and position (AddStackFrame). (4) contradiction rule: inside one parser function, a slice field that is length-tested before being indexed with a constant at one site must be length-tested (or indexed under a range) at every other such site. Termination of lexer loops and the absence of out-of-range indices in general are NOT decided."
+	r.Explanation = "Crash-containment clauses of 'the parser is total'. (1) recover dominance: newLexer (which already lexes the first token) and every parser call in parseFileInput are dominated by the defer of a closure that calls recover() and assigns the error result; newLexer and parseFileInput have no other callers, so every exported parse entry goes through that frame. (2) the handler is total: it converts the recovered value with a non-comma-ok assertion to error, so every panic raised in the lexer/parser files must carry a value whose static type implements error, or be unreachable (preceded on every path by a call that never returns). (3) explicit failures are positioned: in lexer.go / grammar_parse.go the only explicit panics are inside fail(), which wraps the message with file name and position (AddStackFrame). (4) contradiction rule: inside one parser function, a slice field that is length-tested before being indexed with a constant at one site must be length-tested (or indexed under a range) at every other such site. (5) a fixed-size array in the lexer/parser files is indexed by a variable only under a bound visible in the code (byte index into a 256-entry table, mask/remainder by a constant, dominating comparison with a constant or len not above the array length). Termination of lexer loops and the absence of out-of-range indices into slices and strings in general are NOT decided."
 	r.NotCovered = []string{"termination of the lexer/parser loops", "index/slice bounds in general (only the sibling-contradiction rule is applied)", "stack depth on deeply nested input", "errors raised later by the interpreter"}
 	pfi := p.Fn("parse/asp", "parseFileInput")
 	newLexer := p.Fn("parse/asp", "newLexer")
@@ -214,7 +214,114 @@ func checkC19(p *Prog, r *Report) {
 			r.unresolved(rule, "functions of the parser that length-test a slice field before a constant index")
 		}
 	}
+	// (5) a fixed-size array indexed by a variable: the index must be bounded by the array's length on every path
+	rule = "E5.fixed-array-index-bounded"
+	{
+		n := 0
+		for _, fn := range p.Funcs("parse/asp") {
+			if !parseFiles[p.fileOf(fn)] {
+				continue
+			}
+			eachInstr(fn, false, func(_ *ssa.Function, i ssa.Instruction) {
+				var x, idx ssa.Value
+				switch ia := i.(type) {
+				case *ssa.IndexAddr:
+					x, idx = ia.X, ia.Index
+				case *ssa.Index:
+					x, idx = ia.X, ia.Index
+				default:
+					return
+				}
+				t := x.Type().Underlying()
+				if pt, ok := t.(*types.Pointer); ok {
+					t = pt.Elem().Underlying()
+				}
+				arr, ok := t.(*types.Array)
+				if !ok {
+					return
+				}
+				if _, isC := constInt(idx); isC {
+					return // checked by the compiler
+				}
+				n++
+				okk, why := arrayIndexBounded(i, idx, arr.Len())
+				r.check(okk, rule, fn.Name()+": index into "+typeString(x.Type())+" is bounded", p.pos(i.Pos()), fnName(fn), why, "a fixed-size array of "+itoa(int(arr.Len()))+" elements is indexed by a value that nothing bounds (no dominating comparison with the length, not a byte-sized index of a 256-entry table, not masked): a long enough token makes the lexer raise `index out of range`, which reaches the user as a bare runtime error without file or position")
+			})
+		}
+		r.Stats["array_index_sites_in_parse_files"] = n
+		if n == 0 {
+			r.okTrivial(rule, "no fixed-size array is indexed by a variable in the lexer/parser", "-", "", "0 sites")
+		}
+	}
 	_ = token.NoPos
+}
+
+// arrayIndexBounded: idx < n is established for the instruction at: by the index's type (uint8 into >=256), by a mask /
+// remainder with a constant <= n, by a range over the same array, or by a dominating comparison with a constant <= n or len.
+func arrayIndexBounded(at ssa.Instruction, idx ssa.Value, n int64) (bool, string) {
+	strip := func(v ssa.Value) ssa.Value {
+		for {
+			switch c := v.(type) {
+			case *ssa.Convert:
+				// widening conversion from a narrower unsigned type keeps the bound of the source type
+				v = c.X
+			case *ssa.ChangeType:
+				v = c.X
+			default:
+				return v
+			}
+		}
+	}
+	base := strip(idx)
+	if b, ok := base.Type().Underlying().(*types.Basic); ok {
+		if (b.Kind() == types.Uint8) && n >= 256 {
+			return true, "byte-sized index into a table of at least 256 entries"
+		}
+	}
+	if bo, ok := base.(*ssa.BinOp); ok {
+		if k, isC := constInt(bo.Y); isC {
+			if bo.Op == token.AND && k >= 0 && int64(k) < n {
+				return true, "masked with a constant below the length"
+			}
+			if bo.Op == token.REM && k > 0 && int64(k) <= n {
+				if b, ok := bo.X.Type().Underlying().(*types.Basic); ok && b.Info()&types.IsUnsigned != 0 {
+					return true, "unsigned remainder by a constant not above the length"
+				}
+			}
+		}
+	}
+	for _, f := range factsAt(at) {
+		bo, ok := f.V.(*ssa.BinOp)
+		if !ok {
+			continue
+		}
+		lim := func(v ssa.Value) (int64, bool) {
+			if k, isC := constInt(v); isC {
+				return int64(k), true
+			}
+			if c, ok := v.(*ssa.Call); ok {
+				if b, ok := c.Call.Value.(*ssa.Builtin); ok && b.Name() == "len" {
+					if a, ok := c.Call.Args[0].Type().Underlying().(*types.Array); ok {
+						return a.Len(), true
+					}
+				}
+			}
+			return 0, false
+		}
+		same := func(v ssa.Value) bool { return v == idx || strip(v) == base }
+		// idx < K (true) ; idx >= K (false) ; K > idx (true) ; K <= idx (false) ; idx <= K-1 ...
+		if k, ok := lim(bo.Y); ok && same(bo.X) {
+			if (bo.Op == token.LSS && f.Val && k <= n) || (bo.Op == token.GEQ && !f.Val && k <= n) || (bo.Op == token.LEQ && f.Val && k < n) || (bo.Op == token.GTR && !f.Val && k < n) {
+				return true, "dominated by a comparison of the index with a bound not above the length"
+			}
+		}
+		if k, ok := lim(bo.X); ok && same(bo.Y) {
+			if (bo.Op == token.GTR && f.Val && k <= n) || (bo.Op == token.LEQ && !f.Val && k <= n) || (bo.Op == token.GEQ && f.Val && k < n) || (bo.Op == token.LSS && !f.Val && k < n) {
+				return true, "dominated by a comparison of the index with a bound not above the length"
+			}
+		}
+	}
+	return false, ""
 }
 
 // neverReturns: no path from entry reaches a return without first calling a function that never
